@@ -168,6 +168,43 @@ def parse_fn(e):
     return conj(ok)
 
 
+def search_flow_fn(kind, p, flow_name, twin=False):
+    """inside a search: every candidate's g-function is computed with the per-borehole flow of THAT candidate (V rho / 1000 / N for a
+    system flow, v rho / 1000 for a per-borehole flow), which is also the flow of the exchanger built on it - whatever was evaluated before"""
+    def fn(e):
+        import ghedesigner.search_routines as SR
+        from ghedesigner.enums import FlowConfigType, TimestepType
+
+        from . import search_common as SC, search_props as SP
+        ctx = SC.SearchCtx(e=e)
+        vf = e.real('v', 1e-3, 50.0)
+        parts = SC.light_parts()
+        sp = SC.sim_params(ctx, None, False)
+        dom, desc = SP.domain(kind, p)
+        common = dict(v_flow=vf, sim_params=sp, hourly_extraction_ground_loads=[0.0] * 8760, method=TimestepType.HYBRID,
+                      flow_type=getattr(FlowConfigType, flow_name), **parts)
+        cls = {'ns': SR.Bisection1D, 'rect': SR.Bisection1D, '2d': SR.Bisection2D}.get(kind, SR.BisectionZD)
+        try:
+            cls(dom, desc, **common)
+        except ValueError:
+            pass
+        if twin:
+            return False
+        rho = parts['fluid'].rho
+        cs = [len(ctx.flow_records) >= 2]
+        for m_g, m_ghe, nbh, v_sys in ctx.flow_records:
+            exp = vf * rho / 1000.0 / nbh if flow_name == 'SYSTEM' else vf * rho / 1000.0
+            cs += [m_g is not None, m_g == exp, m_ghe == exp]
+        return conj(cs)
+    return fn
+
+
+def search_flow_setup():
+    from . import search_common as SC
+    SC.install()
+    setup()
+
+
 def chain_setup():
     from . import c17
     c17.setup()
@@ -216,6 +253,13 @@ def units(tier, seed):
         Unit('rowwise', make_fn('RowWiseModifiedBisectionSearch'), make_replay('RowWiseModifiedBisectionSearch'), setup, F, B, AS, ST),
         Unit('fp_relative_error', fp_fn, None, None, [], 'v in [1e-4, 10], two rounding errors |eps| <= 2^-53', ['standard relative-error model of binary64']),
         Unit('flow_type_parsing', parse_fn, None, setup, F[3:], '9 concrete spellings; flow value symbolic', AS, ['Design* constructor -> recorder']),
+    ] + [
+        Unit('search_flow_%s_%s' % (kind, fl), search_flow_fn(kind, p, fl), None, search_flow_setup,
+             ['search_routines.py:Bisection1D.initialize_ghe', 'search_routines.py:Bisection1D.search', 'search_routines.py:Bisection2D.__init__', 'search_routines.py:BisectionZD.search_successive',
+              'search_routines.py:Bisection1D.retrieve_flow'],
+             '%s candidate list, flow type %s; flow value and all excess temperatures symbolic (all sign patterns)' % (kind, fl), AS,
+             ['GHE -> light object recording its flows; calc_g_func_for_multiple_lengths -> token recording the flow it was given; simulate -> symbolic temperatures'])
+        for kind, p in (('ns', dict(n=3)), ('2d', dict(L=20.0, W=12.0, bmin=4.0, bmx=10.0, bmy=6.0))) for fl in ('SYSTEM', 'BOREHOLE')
     ] + [
         Unit('design_chain_%s_%s' % (geo, fs), chain_fn(geo, fs), None, chain_setup, ['manager.py:GHEManager.set_design', 'design.py:Design*.__init__', 'design.py:Design*.find_design'],
              'design method %s, flow type string %r; flow value and every other numeric setting symbolic' % (geo, fs), AS,
